@@ -23,7 +23,9 @@ def ts_of(x):
 
 
 def row_to_candle(row):
-    ts, o, h, l, c, v = row
+    ts, o, h, l, c, v = row[:6]
+    if len(row) > 6:  # 7th element: readings the caller attached to the candle before handing it over
+        return Candle(o, h, l, c, v, timestamp=ts_of(ts), indicators=dict(row[6]))
     return Candle(o, h, l, c, v, timestamp=ts_of(ts))
 
 
@@ -33,10 +35,10 @@ def rows_to_candles(rows):
 
 def encode_row(row, enc):
     """The same candle data in one of the encodings append() accepts."""
-    ts, o, h, l, c, v = row
-    ts = ts_of(ts)
     if enc == "candle":
-        return Candle(o, h, l, c, v, timestamp=ts)
+        return row_to_candle(row)
+    ts, o, h, l, c, v = row[:6]
+    ts = ts_of(ts)
     if enc == "dict":
         return {"open": o, "high": h, "low": l, "close": c, "volume": v, "timestamp": ts}
     if enc == "list":
